@@ -63,6 +63,10 @@ class HSym:
     def vals(self, arr):
         return list(arr.flat) if isinstance(arr, nd.ndarray) else list(arr)
 
+    def fresh_state(self):
+        """put module-level containers and mutable default arguments of the analysed code back to their load-time value"""
+        self.L.reset_state()
+
     def writes(self):
         return list(nd.WRITE_LOG)
 
@@ -150,6 +154,16 @@ class HConc:
 
     def vals(self, arr):
         return [float(v) for v in _np.asarray(arr, dtype=float).reshape(-1)]
+
+    def fresh_state(self):
+        """real package: re-import the (non-jitted) modules so that state kept between calls starts from scratch"""
+        import sys, importlib
+        for name in sorted(sys.modules):
+            if name.startswith('kneeliverse.') and name not in ('kneeliverse.metrics',):
+                try:
+                    importlib.reload(sys.modules[name])
+                except Exception:
+                    pass
 
     def writes(self):
         out = []
